@@ -1247,6 +1247,134 @@ let unfold_case (input : string) (obs0 : string) : verdict =
       { model = (match depth with Some d -> model ^ " D " ^ d | None -> model); oracle = !oracle }
   | _ -> failwith "unfold: bad input"
 
+(* ---- C11: fold then unfold ---- *)
+let rec gv_exists (p : gtype -> gvalue -> bool) (t : gtype) (v : gvalue) : bool =
+  p t v ||
+  (match (match t with TNamed u -> u | _ -> t), v with
+   | TPtr u, GPtr x -> gv_exists p u x
+   | TIface, GIface (dt, dv) -> gv_exists p dt dv
+   | (TSlice u | TArray (_, u)), GList l -> List.exists (gv_exists p u) l
+   | (TMap u | TMapK u), GMap kvs -> List.exists (fun (_, x) -> gv_exists p u x) kvs
+   | TStruct fs, GStruct vs ->
+       let rec go fs vs = match fs, vs with
+         | (_, ft) :: fr, x :: vr -> gv_exists p ft x || go fr vr
+         | _, _ -> false in
+       go fs vs
+   | _, _ -> false)
+
+let max_int64_z = ZA.of_string "9223372036854775807"
+let has_big_uint t v = gv_exists (fun t v -> match t, v with
+    | (TNum (KUint64 | KUint) | TNamed (TNum (KUint64 | KUint))), GNum z -> ZA.gt (zt_of_z z) max_int64_z | _ -> false) t v
+let has_bad_utf8 t v = gv_exists (fun _ v -> match v with
+    | GStr s -> not (utf8_valid s)
+    | GMap kvs -> List.exists (fun (k, _) -> not (utf8_valid k)) kvs
+    | _ -> false) t v
+let has_iface_float t v = gv_exists (fun t v -> match t, v with
+    | TIface, GIface (dt, dv) -> gv_exists (fun t _ -> match t with TNum (KFloat32 | KFloat64) | TNamed (TNum (KFloat32 | KFloat64)) -> true | _ -> false) dt dv
+    | _ -> false) t v
+let has_neg_zero t v = gv_exists (fun t v -> match t, v with
+    | (TNum KFloat64 | TNamed (TNum KFloat64)), GNum z -> ZA.equal (zt_of_z z) (ZA.shift_left ZA.one 63)
+    | TNum KFloat32, GNum z -> ZA.equal (zt_of_z z) (ZA.shift_left ZA.one 31)
+    | _ -> false) t v
+
+let rtgo_case (input : string) (obs0 : string) : verdict =
+  let obs, _ = split_flags_all obs0 in
+  match Str.split_delim (Str.regexp_string "|") input with
+  | [ h; tseg; vseg ] ->
+      let route, _multi = match words h with [ r; m ] -> (r, m = "1") | _ -> failwith "rtgo header" in
+      let t, v = typed_value tseg vseg in
+      let fuel = nat_of_int 400 in
+      let model =
+        if route <> "direct" then obs
+        else match ucc_type t with
+          | Some _ -> "SETUPERR"
+          | None ->
+              let evs, err = fold_value t v in
+              (match err with
+               | Some _ -> "R err"
+               | None -> (match unfold_value t (zero_of t) evs with
+                   | UDone v' -> "R ok V " ^ gvalue_tok t v'
+                   | _ -> "R err")) in
+      let oracle = ref [] in
+      (if obs = "PANIC" || obs = "HANG" then oracle := ("C11", "fold/unfold crashed: " ^ obs) :: !oracle
+       else begin
+         let supported = spec_supported fuel t && ucc_type t = None in
+         match (if supported then spec_fold fuel t v else None) with
+         | None -> ()        (* refused with an error or not: nothing to reproduce *)
+         | Some _ ->
+             let skip = (route = "json" && (has_bad_utf8 t v || has_iface_float t v || has_neg_zero t v)) in
+             if not skip then begin
+               if starts_with obs "R ok V " then begin
+                 let v', _ = parse_gvalue t (words (after obs 7)) in
+                 if not (deep_eq fuel t (omit_view fuel t v) v') then
+                   oracle := ("C11", "the unfolded value differs from the folded one" ^
+                                     (if route = "ubj" && has_big_uint t v then " sig=ubj-uint-above-maxint64" else "")) :: !oracle
+               end else
+                 oracle := ("C11", "a supported value was refused (" ^ obs ^ ")" ^
+                                   (if route = "ubj" && has_big_uint t v then " sig=ubj-uint-above-maxint64" else "")) :: !oracle
+             end
+       end);
+      { model; oracle = !oracle }
+  | _ -> failwith "rtgo: bad input"
+
+(* ---- C17: reused iterator / unfolder ---- *)
+let c17_flag (flags : string list) (what : string) : (string * string) list =
+  match List.filter (fun x -> starts_with x "C17 ") flags with
+  | x :: _ -> [ ("C17", what ^ ": " ^ x) ]
+  | [] -> []
+
+let histfold_case (input : string) (obs0 : string) : verdict =
+  let obs, flags = split_flags_all obs0 in
+  let segs = List.map String.trim (Str.split_delim (Str.regexp_string ";") input) in
+  match segs with
+  | h :: items when items <> [] ->
+      let multi = match words h with [ _; m ] -> m = "1" | _ -> false in
+      let last = List.nth items (List.length items - 1) in
+      (match Str.split_delim (Str.regexp_string "|") last with
+       | [ tseg; vseg ] ->
+           let t, v = typed_value tseg vseg in
+           let evs, err = fold_value t v in
+           let verdict = match err with None -> "ok" | Some _ -> "err" in
+           let model = Printf.sprintf "EV %s R %s" (toks_of_events evs) verdict in
+           let model = match obs_events obs with
+             | Some (ievs, iv) when multi && iv = verdict && (verdict <> "ok" || sorted_toks ievs = sorted_toks evs) -> obs
+             | _ -> model in
+           let oracle = c17_flag flags "a reused iterator differs from a fresh one on the probe value" in
+           let oracle = if obs = "PANIC" || obs = "HANG" then ("C17", "iterator crashed: " ^ obs) :: oracle else oracle in
+           { model; oracle }
+       | _ -> failwith "histfold: item")
+  | _ -> failwith "histfold: bad input"
+
+let histunf_case (input : string) (obs0 : string) : verdict =
+  let obs, flags = split_flags_all obs0 in
+  let segs = List.map String.trim (Str.split_delim (Str.regexp_string ";") input) in
+  match segs with
+  | _ :: docs when docs <> [] ->
+      let last = List.nth docs (List.length docs - 1) in
+      (match Str.split_delim (Str.regexp_string "|") last with
+       | [ tseg; oseg; eseg ] ->
+           let t, _ = parse_gtype (words tseg) in
+           let old = if String.trim oseg = "zero" then zero_of t else fst (parse_gvalue t (words oseg)) in
+           let evs = events_of_toks (words eseg) in
+           let model =
+             match unfold_value t old evs with
+             | USetupErr _ -> "SETUPERR"
+             | UDone v -> "R ok V " ^ gvalue_tok t v
+             | UMore -> "R more"
+             | UFail _ -> "R err" in
+           let impl = strip_depth obs in
+           let depth = match Str.bounded_split_delim (Str.regexp_string " D ") obs 2 with [ _; d ] -> Some d | _ -> None in
+           let oracle = c17_flag flags "a reused unfolder (after Reset/SetTarget) differs from a fresh one on the last document" in
+           let oracle = if impl = "PANIC" || impl = "HANG" then ("C14", "unfolder crashed or hung: " ^ impl) :: oracle else oracle in
+           let oracle = match depth with
+             | Some d when starts_with impl "R ok" && d <> "0,0,0,0,0,0,0,0,0" ->
+                 ("C17", "unfolder stacks not idle after a complete document: " ^ d) :: oracle
+             | _ -> oracle in
+           let model = if risky_float evs && has_int_kind t && impl <> "PANIC" && impl <> "HANG" then impl else model in
+           { model = (match depth with Some d -> model ^ " D " ^ d | None -> model); oracle }
+       | _ -> failwith "histunf: doc")
+  | _ -> failwith "histunf: bad input"
+
 let fmts = [ cbor_fmt; ubj_fmt; json_fmt ]
 let () = all_fmts := fmts
 let fmt_handlers =
@@ -1258,7 +1386,7 @@ let fmt_handlers =
 let canon_obs (o : string) : string =
   if contains o "HANG" then "HANG" else if contains o "PANIC" then "PANIC" else o
 
-let handlers : (string * (string -> string -> verdict)) list = ("lru", lru_case) :: ("fold", fold_case) :: ("unfold", unfold_case) :: fmt_handlers
+let handlers : (string * (string -> string -> verdict)) list = ("lru", lru_case) :: ("fold", fold_case) :: ("unfold", unfold_case) :: ("rtgo", rtgo_case) :: ("histfold", histfold_case) :: ("histunf", histunf_case) :: fmt_handlers
 
 
 let () =
